@@ -110,6 +110,10 @@ class Terminologies(dict):
             print("Failed to load %s due to parser errors" % url)
             print(' "%s"' % exc)
             term = None
+        except Exception as exc:
+            # e.g. an included resource that cannot be loaded or resolved
+            print("Failed to load %s: %s" % (url, exc))
+            term = None
         # The first result published for a URL stays the cached one: concurrent
         # loads of the same URL all return the same object.
         return self.setdefault(url, term)
